@@ -299,3 +299,40 @@ class Writer:
             for k, old in enumerate(h.cards):
                 if card_name(old).upper() == name.strip().upper(): h.cards[k] = c; return 0
         h.cards.append(c); return 0
+
+# ------------------------------------------------------------------ parsing real FITS bytes into the model (image HDUs only)
+def from_bytes(b):
+    """inverse of Fits.to_bytes for files made of image HDUs; raises ValueError on anything else"""
+    hdus = []; pos = 0
+    while pos < len(b):
+        cards = []; bitpix = None; axes = {}; naxis = None; done = False
+        while not done:
+            block = b[pos:pos + 2880]; pos += 2880
+            if len(block) < 2880: raise ValueError("truncated header block")
+            for k in range(36):
+                c = block[80 * k:80 * k + 80].decode("ascii", errors="replace")
+                if c.startswith("END") and c[3:].strip() == "": done = True; break
+                cards.append(c)
+        while cards and cards[-1].strip() == "": cards.pop()
+        for c in cards:
+            n = card_name(c)
+            if n == "BITPIX": bitpix = int(card_value(c))
+            elif n == "NAXIS": naxis = int(card_value(c))
+            elif re.fullmatch(r"NAXIS\d+", n): axes[int(n[5:])] = int(card_value(c))
+            elif n == "XTENSION" and string_value(card_value(c)) != "IMAGE": raise ValueError("non-image extension")
+        if bitpix is None or naxis is None: raise ValueError("header without BITPIX / NAXIS")
+        ax = [axes[k + 1] for k in range(naxis)]; h = HDU(cards, [], bitpix, ax, not hdus)
+        n = h.npix(); size = abs(bitpix) // 8; fmt = {-32: ">f", -64: ">d", 16: ">h", 32: ">i", 8: "B", 64: ">q"}[bitpix]
+        raw = b[pos:pos + n * size]
+        if len(raw) < n * size: raise ValueError("truncated data unit")
+        vals = []
+        for k in range(n):
+            v = struct.unpack(fmt, raw[k * size:(k + 1) * size])[0]
+            if isinstance(v, float):
+                if v != v: vals.append("nan")
+                elif v in (float("inf"), float("-inf")): vals.append("inf" if v > 0 else "-inf")
+                elif v == 0 and math.copysign(1, v) < 0: vals.append("-0")
+                else: vals.append(Fr(v))
+            else: vals.append(Fr(v))
+        h.data = vals; hdus.append(h); pos += n * size; pos += (-pos) % 2880
+    return Fits(hdus)
